@@ -71,7 +71,15 @@ func (its *OrdaService) PatchDocument(goCtx gocontext.Context, req *model.PatchM
 
 		pushPullHandler := newPushPullHandler(ctx, ppp, clientDoc, collectionDoc, its.managers)
 		pppCh := pushPullHandler.Start()
-		_ = <-pppCh
+		// the patch is only done when its operations are in the log: a push that was refused (the key's lock not
+		// obtained in time, a database failure, a concurrent creation of the same key) must not be reported as success
+		if resPack := <-pppCh; resPack == nil || resPack.GetPushPullPackOption().HasErrorBit() {
+			msg := "fail to push the patch of '" + req.Key + "'"
+			if resPack != nil && len(resPack.GetOperations()) > 0 {
+				msg += ": " + string(resPack.GetOperations()[0].GetBody())
+			}
+			return nil, errors.NewRPCError(errors.ServerInit.New(ctx.L(), msg))
+		}
 	}
 
 	return &model.PatchMessage{
